@@ -202,12 +202,63 @@ def scn_calculate(T, case):
         T.prove("C14.calculate.nothing_succeeded_gives_nan_functions", bool(T.np.isnan(res.functions.objectives[0])) and bool(T.np.isnan(res.functions.constraints[0])))
 
 
+# ------------------------------------------------------------------------------------ the success threshold of a validated configuration
+def cases_threshold(tier):
+    for ms in (None, 0, 2, 5):
+        for zero in (False, True):
+            yield "min_success=%s%s" % (ms, "/one-zero-weight" if zero else ""), {"v": "realizations", "ms": ms, "zero": zero}
+
+
+def scn_threshold(T, case):
+    """realization_min_success as this property reads it is the VALIDATED value: default and clamp are the ensemble size (a
+    zero-weight realization counts), a plain Python integer (C18's validator scenario under this property's prefix)."""
+    from contracts import C18
+    from contracts.reuse import Renamed
+
+    C18.scn_validators(Renamed(T, "C18.", "C14.config."), case)
+
+
+# ------------------------------------------------------------------------------------ the function budget stays with the driver
+def cases_budget(tier):
+    from contracts import C08
+
+    for cid, c in C08.cases_options(tier):
+        if c["options"] in ("empty", "dict") and c["mi"] is None:
+            yield cid, c
+
+
+def scn_budget(T, case):
+    """'MAX_FUNCTIONS_REACHED exactly when the function budget stopped it': the budget is enforced by the optimizer driver, which
+    raises that code; the SciPy plug-in does not hand the back-end a function budget of its own (the back-end would stop by itself
+    and the step would report a normal finish).  C08's options scenario under this property's prefix."""
+    from contracts import C08
+    from contracts.reuse import Renamed
+
+    C08.scn_options(Renamed(T, "C08.", "C14.backend."), case)
+
+
+# ------------------------------------------------------------------------------------ what the plan steps hand on (shared contract)
+def cases_steps(tier):
+    from contracts import stepcontract
+
+    return stepcontract.cases(tier)
+
+
+def scn_steps(T, case):
+    from contracts import stepcontract
+
+    stepcontract.scenario(T, case, "C14")
+
+
 SCENARIOS = [
     Scenario("constraint_info_raises_clause", scn_constraint_info, cases_constraint_info, {"quick": 3, "thorough": 20}),
     Scenario("native_failure_patterns", scn_native_patterns, cases_native_patterns, {"quick": 1, "thorough": 1}),
     Scenario("step_exception_flow", scn, stepflow.cases, {"quick": 10, "thorough": 100}),
     Scenario("estimator_raises_clause", scn_estimator, cases_estimator, {"quick": 10, "thorough": 100}),
     Scenario("calculate_raises_clause", scn_calculate, cases_calculate, {"quick": 3, "thorough": 20}),
+    Scenario("validated_success_threshold", scn_threshold, cases_threshold, {"quick": 2, "thorough": 10}),
+    Scenario("function_budget_stays_with_the_driver", scn_budget, cases_budget, {"quick": 1, "thorough": 2}),
+    Scenario("plan_steps_hand_over", scn_steps, cases_steps, {"quick": 1, "thorough": 2}),
 ]
 
 MANIFEST = {
